@@ -185,7 +185,11 @@ pub(super) async fn process_command(
         }
         "QUIT" => (RespValue::SimpleString("OK".to_string()), None),
         _ => (
-            RespValue::Error(format!("ERR unknown command '{command}'")),
+            // The command name is client text: keep the error reply on a single line
+            RespValue::Error(format!(
+                "ERR unknown command '{}'",
+                command.replace(['\r', '\n'], " ")
+            )),
             None,
         ),
     };
